@@ -544,7 +544,11 @@ def rule_pkcs7(ctx, prog, chk):
                     if (op == "!=" and lab == "T") or (op == "==" and lab == "F"):
                         if _leads_to_error_return(fn, g, s):
                             good = True
-            if good and _loop_covers(fn, pv[0]):
+            if not good:
+                good_h = _scan_in_helper(prog, fn, g, F, pv[0], mode)
+            else:
+                good_h = False
+            if good_h or (good and _loop_covers(fn, pv[0])):
                 chk.ok("PKCS7-REJECT", fn, "padLen:octets", "every padding octet is compared with padLen, a mismatch returns an error", line=nd.el.line)
             else:
                 chk.fail("PKCS7-REJECT", fn, "padLen:octets", "no comparison of the padding octets with padLen whose failing side is an error return covers the octets [16 - padLen, 16): malformed padding is accepted", line=nd.el.line)
@@ -574,6 +578,53 @@ def rule_pkcs7(ctx, prog, chk):
                 else:
                     chk.fail("PKCS7-REJECT", fn, "status", "a return of RLC_OK is reachable although the unpadding did not report a positive length: rejected padding is not reported to the caller", line=el.line)
     return n
+
+
+def _scan_in_helper(prog, fn, g, F, pv, mode):
+    """the octet comparison moved into a static helper: a branch on helper(.., padLen ..) whose failing side is an error
+    return, the helper comparing indexed octets with that parameter over [16 - p, 16)"""
+    for b in g.nodes:
+        if b.kind != "br":
+            continue
+        t = b.info.get("term")
+        c = t and t.get("c")
+        if c is None:
+            continue
+        stb = F.at(b)
+        if stb is None or stb is engines.UNIVERSE:
+            continue
+        if mode and not any(a in stb for a in mode):
+            continue
+        for cl in ir.calls_in(fn, c, True):
+            if not cl[1]:
+                continue
+            pos = [i for i, a in enumerate(cl[2]) if ir.strip_casts(fn.resolve(a)) == ["v", pv]]
+            h = prog.get(cl[1], near=fn)
+            if not pos or h is None or not h.static or pos[0] >= len(h.params):
+                continue
+            hp = h.params[pos[0]]
+            cmp_ok = False
+            for hb in h.blocks.values():
+                ht = getattr(hb, "term", None)
+                if ht and ht.get("c") is not None:
+                    hc = ir.strip_casts(h.resolve(ht["c"]))
+                    if isinstance(hc, list) and hc and hc[0] == "b" and hc[1] in ("!=", "==") and any(x == ["v", hp] for x in ir.walk(h, hc)) \
+                            and any(x[0] == "x" for x in ir.walk(h, hc)):
+                        cmp_ok = True
+            if not (cmp_ok and _loop_covers(h, hp)):
+                continue
+            # which way fails: the helper's truth must not lead to the error, its falsity must
+            atoms_t = engines.cond_atoms(fn, c, True)
+            fails_on = None
+            for a in atoms_t:
+                if a[0] == "cmp" and isinstance(a[1], tuple) and a[1][0] == "c" and a[1][1] == cl[1]:
+                    fails_on = "F" if engines.entails(a[2], a[3], "!=", 0) else "T"
+            if fails_on is None:
+                continue
+            for s2, lab in b.succ:
+                if lab == fails_on and _leads_to_error_return(fn, g, s2):
+                    return True
+    return False
 
 
 def _return_const(fn, node):
@@ -759,6 +810,13 @@ def rule_kdf_counter(ctx, prog, chk):
         n += 1
         el, v, sub = found
         dst = ir.strip_casts(h.resolve(sub[2][0]))
+        if isinstance(dst, list) and dst and dst[0] == "v" and h.vars[dst[1]].get("k") == "l":
+            # a local pointer assigned once (uint8_t *ctr = buffer + in_len;)
+            defs = [x for e2 in h.all_elements() for x in ir.walk(h, e2.e)
+                    if (x[0] == "d" and x[1] == dst[1] and x[2] is not None) or (x[0] == "=" and ir.strip_casts(x[1]) == dst)]
+            defs = [x for x in defs if (ir.peel(h, x[2]) or [None])[:2] != ["i", 0]]      # `= NULL` at the declaration
+            if len(defs) == 1:
+                dst = ir.strip_casts(h.resolve(defs[0][2]))
         off_ok = isinstance(dst, list) and dst[0] == "b" and dst[1] == "+" and any(x[0] == "v" and h.vars[x[1]].get("k") == "p" for x in ir.walk(h, dst[3]))
         if v not in big:
             chk.fail("KDF-COUNTER", h, "octets", "the counter octets appended to the input are copied from `%s`, which is not the big-endian conversion of the counter (util_conv_big): on a little-endian machine the counter is appended least significant octet first" % h.vars[v]["n"], line=el.line)
